@@ -59,6 +59,9 @@ mut("b_is_locked_query", "src/mutex/mutex.rs", "\t#[must_use]\n\tpub fn unlock(g
 mut("b_private_lock_helper", "src/mutex/mutex.rs",
     "\tpub fn lock(&self, key: ThreadKey) -> MutexGuard<'_, T, R> {\n\t\tunsafe {\n\t\t\t// safety: we have the thread key\n\t\t\tself.raw_write();\n",
     "\tfn acquire(&self) {\n\t\t// safety: only called by functions that own the thread key\n\t\tunsafe { self.raw_write() }\n\t}\n\n\tpub fn lock(&self, key: ThreadKey) -> MutexGuard<'_, T, R> {\n\t\tunsafe {\n\t\t\t// safety: we have the thread key\n\t\t\tself.acquire();\n")
+mut("b_ordered_try_write_iterator_style", "src/collection/utils.rs",
+    "\t\t\tfor (i, lock) in locks.iter().enumerate() {\n\t\t\t\t// safety: we have the thread key\n\t\t\t\tif lock.raw_try_write() {\n\t\t\t\t\tlocked.set(locked.get() + 1);\n\t\t\t\t} else {\n\t\t\t\t\tfor lock in &locks[0..i] {\n\t\t\t\t\t\t// safety: this lock was already acquired\n\t\t\t\t\t\tlock.raw_unlock_write();\n\t\t\t\t\t}\n\t\t\t\t\treturn false;\n\t\t\t\t}\n\t\t\t}\n\n\t\t\ttrue",
+    "\t\t\tlet acquired = locks\n\t\t\t\t.iter()\n\t\t\t\t.take_while(|lock| lock.raw_try_write())\n\t\t\t\t.inspect(|_| locked.set(locked.get() + 1))\n\t\t\t\t.count();\n\t\t\tif acquired < locks.len() {\n\t\t\t\tfor lock in &locks[0..acquired] {\n\t\t\t\t\tlock.raw_unlock_write();\n\t\t\t\t}\n\t\t\t\treturn false;\n\t\t\t}\n\n\t\t\ttrue")
 
 # ---- renames of crate-internal helpers (anchors are discovered structurally) --------------------------------------------------
 M.append({"name": "b_rename_internal_helpers", "expect": [], "note": "sed-style renames across src/",
